@@ -40,6 +40,14 @@ def idOf (tbl : List (Pos × Nat)) (p : Pos) : Json :=
   | some q => ofNat q.2
   | none => Json.str "not-an-element"
 
+/-- ASCII-safe rendering of a string for the line protocol (core splits the driver output with
+    `str.splitlines`, which also breaks at U+0085, U+2028, ...): printable ASCII except `%` as
+    is, everything else as `%<hex code point>;` -/
+def encStr (s : Path.Str) : Json :=
+  let hex (n : Nat) : String := String.ofList (Nat.toDigits 16 n)
+  Json.str (String.join (s.map (fun c =>
+    if 32 ≤ c.toNat && c.toNat < 127 && c != '%' then String.singleton c else "%" ++ hex c.toNat ++ ";")))
+
 def errStr : Err → String
   | .lookup => "LookupError" | .value => "ValueError" | .type => "TypeError"
 
@@ -47,7 +55,7 @@ def opJson : Op → Json
   | .top => Json.arr #["TOP"]
   | .up => Json.arr #["UP"]
   | .here => Json.arr #["HERE"]
-  | .name s => Json.arr #["NAME", ofOpt ofChars s]
+  | .name s => Json.arr #["NAME", ofOpt encStr s]
   | .slice a b c => Json.arr #["SLICE", ofOpt ofInt a, ofOpt ofInt b, ofOpt ofInt c]
 
 def resJson (tbl : List (Pos × Nat)) : FindRes → Json
@@ -107,7 +115,7 @@ def run (j : Json) : Except String Json := do
     if !isNull aj then
       let cp ← parseCPath aj
       let printed := print cp
-      out := out ++ [("printed", ofChars printed)]
+      out := out ++ [("printed", encStr printed)]
       let p := cp.abstract
       let spec := findSpec p root start single strict
       out := out ++ [("denoted", resJson tbl spec), ("canon", Json.bool (Canon p))]
